@@ -202,6 +202,9 @@ func NewNNSDriver(mode string) *NNSDriver {
 			nnsOp{kind: "setAdmin", name: "aa.com", who: "D", signer: s("U1", "D")},
 			nnsOp{kind: "setAdmin", name: "x.aa.com", who: "D", signer: s("U1", "D")},
 			nnsOp{kind: "time", step: "exp"},
+			// x.aa.com was registered a block (1 ms) after aa.com: one more millisecond and both have expired, which
+			// opens the take-over of the sub-name by somebody else
+			nnsOp{kind: "time", step: "exp+1"},
 		)
 		sets := [][]string{s("U1"), s("U2"), s("D"), s("S"), s("Cm"), s("U2", "D"), s("Al")}
 		// records of sub-names that are not registered themselves: the authority is that of the longest registered
@@ -562,6 +565,7 @@ func (d *NNSDriver) Step(x *Exec, n *Node, i int) StepResult {
 		return wit[r.owner] || (r.admin != "" && wit[r.admin])
 	}
 	expHalt := true
+	selfTransfer := false
 	unspecified := false
 	var expRet any
 	var expNotifs []Notif
@@ -631,6 +635,7 @@ func (d *NNSDriver) Step(x *Exec, n *Node, i int) StepResult {
 		case !wit[r.owner]:
 			expRet = "i0"
 		default:
+			selfTransfer = r.owner == to
 			if r.owner != to {
 				nm.bal[r.owner]--
 				nm.bal[to]++
@@ -798,7 +803,22 @@ func (d *NNSDriver) Step(x *Exec, n *Node, i int) StepResult {
 			got = append(got, nf)
 		}
 	}
-	if !SameNotifSet(got, expNotifs) {
+	// the statements fix the NEP-11 Transfer announcements (one per change of ownership); Renew / SetAdmin events and
+	// whether a transfer to oneself is announced are the contract's own business
+	onlyTransfers := func(l []Notif) []Notif {
+		var out []Notif
+		for _, nf := range l {
+			if nf.Name == "Transfer" {
+				out = append(out, nf)
+			}
+		}
+		return out
+	}
+	gotT, expT := onlyTransfers(got), onlyTransfers(expNotifs)
+	if selfTransfer && len(gotT) == 0 {
+		expT = nil
+	}
+	if !SameNotifSet(gotT, expT) {
 		return viol("notifications", fmt.Sprintf("got %v want %v", got, expNotifs))
 	}
 	if Same(expRet, "i0") && changed {
